@@ -95,6 +95,7 @@ func (e *Enum) setIsIota() {
 	values := make([]int64, len(e.Members))
 	seen := make(map[int64]bool)
 	var max int64 = -1
+	nbExported := 0
 	for i, member := range e.Members {
 		v, ok := member.int64()
 		if !ok || v < 0 {
@@ -104,12 +105,15 @@ func (e *Enum) setIsIota() {
 		if !member.Const.Exported() {
 			continue // ignore non exported const
 		}
+		nbExported++
 		seen[v] = true
 		if max < v {
 			max = v
 		}
 	}
-	if len(seen) != int(max+1) {
+	// the exported values must be exactly 0, 1, ..., max, each of them once :
+	// two exported members with the same value can't be mapped by position
+	if len(seen) != int(max+1) || nbExported != len(seen) {
 		return
 	}
 
